@@ -292,6 +292,13 @@ func runC18Reg(c *Ctx) {
 							}
 							mc.SendLine(fmt.Sprintf(":srv 001 %s :Welcome %s!%s@host", wn, wn, ident))
 							cur = wn
+							if ordinal == 1 && idx%3 == 0 {
+								// a nick change made by the server with a NICK line (nobody asks the client for its nick
+								// afterwards): the next registration asks for the nick the client has now
+								rn := fmt.Sprintf("renamed%d", idx%7)
+								mc.SendLine(fmt.Sprintf(":%s!%s@host NICK %s", cur, ident, rn))
+								cur = rn
+							}
 							mc.SendLine("PING :wsync")
 							mc.WaitLineFrom(WaitLong, 0, func(l string) bool { return l == "PONG :wsync" })
 							if !CloseWatched(conn) {
